@@ -12,7 +12,7 @@ use std::time::Duration;
 
 const PROP: &str = "C20";
 pub const PORT: u16 = 6503;
-pub const N_STATES: usize = 11;
+pub const N_STATES: usize = 12;
 pub const N_VARIANTS: usize = 6;
 
 pub const STATE_NAMES: [&str; N_STATES] = [
@@ -27,6 +27,7 @@ pub const STATE_NAMES: [&str; N_STATES] = [
     "S8_second_session_after_disconnect",
     "S9_connected_but_silent",
     "S10_dap_request_in_flight",
+    "S11_pause_and_continue_before_configuration_done",
 ];
 pub const VARIANT_NAMES: [&str; N_VARIANTS] = [
     "V1_shutdown_exit_close",
@@ -154,6 +155,13 @@ fn reach_state(state: usize, dap: &mut Option<DapClient>, notes: &mut Vec<String
             return Ok(());
         }
         c.request("launch", json!({"workspace": WS, "testRunner": {"testCaseName": "t"}}))?;
+        if state == 11 {
+            // an impatient client: pause / continue while the machine is still launching
+            c.request("pause", json!({"threadId": 1}))?;
+            c.request("continue", json!({"threadId": 1}))?;
+            clock::sleep(Duration::from_millis(3));
+            return Ok(());
+        }
         if state == 3 {
             // breakpoint on the `iny` line (1-based line 6)
             c.request("setBreakpoints", json!({"source": {"path": format!("{}/main.asm", WS)}, "breakpoints": [{"line": 6}]}))?;
